@@ -17,11 +17,11 @@ import (
 
 // ------------------------------------------------------------ AST helpers
 
-func id(n string) gen.Expr   { return &gen.Ident{Name: n} }
-func str(s string) gen.Expr  { return &gen.Lit{Kind: gen.LString, S: s} }
-func num(i int64) gen.Expr   { return &gen.Lit{Kind: gen.LInt, I: i} }
+func id(n string) gen.Expr    { return &gen.Ident{Name: n} }
+func str(s string) gen.Expr   { return &gen.Lit{Kind: gen.LString, S: s} }
+func num(i int64) gen.Expr    { return &gen.Lit{Kind: gen.LInt, I: i} }
 func boolean(b bool) gen.Expr { return &gen.Lit{Kind: gen.LBool, B: b} }
-func undef() gen.Expr        { return &gen.Lit{Kind: gen.LUndefined} }
+func undef() gen.Expr         { return &gen.Lit{Kind: gen.LUndefined} }
 func call(f gen.Expr, args ...gen.Expr) gen.Expr {
 	return &gen.Call{Fn: f, Args: args}
 }
@@ -37,11 +37,11 @@ func def(n string, x gen.Expr) gen.Stmt { return &gen.Define{Names: []string{n},
 func set(t, x gen.Expr) gen.Stmt {
 	return &gen.Assign{Targets: []gen.Expr{t}, Op: "=", X: x}
 }
-func ret(x gen.Expr) gen.Stmt     { return &gen.Return{Xs: []gen.Expr{x}} }
-func expr(x gen.Expr) gen.Stmt    { return &gen.ExprStmt{X: x} }
-func push(x gen.Expr) gen.Stmt    { return set(id("out"), call(id("append"), id("out"), x)) }
-func logS(x gen.Expr) gen.Stmt    { return expr(call(id("L"), x)) }
-func inc(n string) gen.Stmt       { return &gen.IncDec{Target: id(n), Inc: true} }
+func ret(x gen.Expr) gen.Stmt  { return &gen.Return{Xs: []gen.Expr{x}} }
+func expr(x gen.Expr) gen.Stmt { return &gen.ExprStmt{X: x} }
+func push(x gen.Expr) gen.Stmt { return set(id("out"), call(id("append"), id("out"), x)) }
+func logS(x gen.Expr) gen.Stmt { return expr(call(id("L"), x)) }
+func inc(n string) gen.Stmt    { return &gen.IncDec{Target: id(n), Inc: true} }
 func ifs(c gen.Expr, then []gen.Stmt, els []gen.Stmt) gen.Stmt {
 	return &gen.If{Cond: c, Then: then, Else: els, HasElse: els != nil}
 }
@@ -443,10 +443,11 @@ func (b *builder) path(t string, depth int) (gen.Expr, string) {
 			}
 			for _, d := range u.views {
 				if d == t {
-					opts = append(opts, opt{"via-module", func() gen.Expr {
+					o := opt{"via-module", func() gen.Expr {
 						pu, _ := b.path(u.name, 1)
 						return call(sel(pu, "view_"+t))
-					}})
+					}}
+					opts = append(opts, o, o)
 				}
 			}
 			for _, d := range u.dviews {
@@ -617,7 +618,10 @@ func (b *builder) action(depth int) []gen.Stmt {
 			}})
 		}
 		// functions exposed by modules
-		type mf struct{ u, f string; arg bool }
+		type mf struct {
+			u, f string
+			arg  bool
+		}
 		var mfs []mf
 		for _, u := range b.mods {
 			for _, d := range u.incdeps {
@@ -875,7 +879,7 @@ func aliasImports(rt *rapid.T, src string) string {
 // ------------------------------------------------------------ negative graphs
 
 type negGraph struct {
-	Kind     string            `json:"kind"` // cycle | unknown
+	Kind     string            `json:"kind"` // cycle | unknown | scope
 	Src      string            `json:"src"`
 	Modules  map[string]string `json:"modules"`
 	Names    []string          `json:"names"` // cycle members / the unknown name
@@ -1025,6 +1029,23 @@ func genNegative(rt *rapid.T, kind string) *negGraph {
 			mainImport(p)
 		} else {
 			mainImport(entry)
+		}
+	} else if kind == "scope" {
+		// main imports a module and then names the module's own local variable
+		g.Names = []string{"n"}
+		if len(names) > 1 && rapid.Bool().Draw(rt, "extra") {
+			mainImport(names[rapid.IntRange(0, len(names)-1).Draw(rt, "extrato")])
+		}
+		sm := names[rapid.IntRange(0, len(names)-1).Draw(rt, "scopemod")]
+		main = append(main, def("first", &gen.Import{Name: sm}))
+		g.Edges = append(g.Edges, "main->"+sm+"(top)")
+		switch rapid.IntRange(0, 2).Draw(rt, "leak") {
+		case 0:
+			main = append(main, def("leak", id("n")))
+		case 1:
+			main = append(main, def("leak", fn(nil, ret(id("n")))))
+		default:
+			main = append(main, ifs(id("g0"), []gen.Stmt{inc("n")}, nil))
 		}
 	} else {
 		g.Names = []string{unknown}
